@@ -190,7 +190,7 @@ def run(rng, res, tier, shard, nshards):
                 continue
         lg2, fac2 = cache[name + '/lg']
         lang = Lang(spec)
-        hist = gen_history(rng, lang, rng.randint(1, 60), invalid=0.2)
+        hist = gen_history(rng, lang, rng.randint(1, 60) if rng.random() < 0.96 else rng.randint(150, 300), invalid=0.2)
         first = run_history(spec, hist, res, lang_graph=lg2, factory=fac2)
         res.case(digest([name, hist]) if nontrivial(hist) else None)
         if len(res.samples) < 3 and nontrivial(hist):
